@@ -230,7 +230,10 @@ class StmtLoop(C.LoopSpec):
         it.checked_reads = []
         it.case_exit = None
         if kind == 0:
-            s = SObj(ir.If, _test=any_obj(it, "test"), _body=block(it), _orelse=block(it))
+            # the test: an arbitrary object, or an edge / level event of a hand-written sequential context
+            # (`if cohdl.rising_edge(clk):` -- the process is activated also when the event condition does not hold)
+            test = SObj(ir.Event) if it.ctx.branch(it.ctx.fresh_bool("test_is_event")) else any_obj(it, "test")
+            s = SObj(ir.If, _test=test, _body=block(it), _orelse=block(it))
         elif kind == 1:
             s = block(it)
         elif kind == 2:
